@@ -374,6 +374,22 @@ impl WorkReq {
             }
         }
     }
+    /// The same request as an HTTP/2 stream.
+    pub fn h2(&self, req: usize, delay_ms: u64) -> H2Req {
+        let flags = if self.nonce % 2 == 1 && self.steps > 0 { 1 } else { 0 };
+        let xs = format!(
+            "{};{};{};{};{};{}",
+            self.nonce, self.steps, self.step_ms, self.panic_at, self.resp_bytes, flags
+        );
+        H2Req {
+            method: if self.body.is_some() { "PUT".into() } else { "GET".into() },
+            target: "/work".into(),
+            headers: vec![("x-sim".into(), Blob(xs.into_bytes()))],
+            body: Blob(self.body.clone().unwrap_or_default()),
+            delay_ms,
+            req,
+        }
+    }
     pub fn plan(&self) -> ReqPlan {
         ReqPlan {
             nonce: self.nonce,
